@@ -1,21 +1,265 @@
 """Classifier predicates for known findings (keyed by mechanism, over the INPUT
 of a case plus the symptom) - see /verif/known_findings.json.  A violation is
-only attributed to a finding when every reported violation of the case matches
-that finding's predicate; anything else is reported as a VIOLATION."""
+only attributed to a finding when EVERY deciding violation of the case matches
+that one finding's predicate; anything else is reported as a VIOLATION."""
 import re
+
+from . import ref as R
+
+
+def _leaves(e):
+    k = e[0]
+    if k in ("f", "ps", "bs"):
+        yield e
+    elif k == "b":
+        for x in _leaves(e[2]):
+            yield x
+        for x in _leaves(e[3]):
+            yield x
+    elif k == "n":
+        for x in _leaves(e[1]):
+            yield x
+    elif k in ("in", "nin"):
+        for x in _leaves(e[1]):
+            yield x
+        for it in e[2]:
+            if it[0] == "rng":
+                for x in _leaves(it[1]):
+                    yield x
+                for x in _leaves(it[2]):
+                    yield x
+            elif it[0] in ("lst", "rl"):
+                pass
+            else:
+                for x in _leaves(it):
+                    yield x
+
+
+def _unbounded(e, ctx):
+    """value of a bit-vector expression computed with unbounded Python integers"""
+    k = e[0]
+    if k == "b":
+        a = _unbounded(e[2], ctx)
+        b = _unbounded(e[3], ctx)
+        op = e[1]
+        if op == "+":
+            return a + b
+        if op == "-":
+            return a - b
+        if op == "*":
+            return a * b
+        if op in ("/", "%"):
+            if b == 0:
+                raise R.Corner("div0")
+            return a // b if op == "/" else a % b
+        if op == "&":
+            return a & b
+        if op == "|":
+            return a | b
+        if op == "^":
+            return a ^ b
+        if op == "<<":
+            return a << b
+        if op == ">>":
+            return a >> b
+        raise R.Corner("relational inside")
+    return R.ev_self(e, ctx)
+
+
+def top_level_rels(call):
+    """(self_path, relational expr) for every statement-level relational expression of the call
+    (also the conjuncts of a statement-level &)"""
+    out = []
+
+    def walk(sp, e):
+        if e[0] == "b" and e[1] in R.REL:
+            out.append((sp, e))
+        elif e[0] == "b" and e[1] == "&":
+            walk(sp, e[2])
+            walk(sp, e[3])
+    for sp, s, org in call.stmts:
+        if s[0] == "e":
+            walk(sp, s[1])
+    return out
+
+
+def is_random_leaf(call, sp, leaf):
+    ap = tuple(sp) + tuple(leaf[1])
+    return any(p == ap for p, _ in call.rand_leaves)
+
+
+def nonrandom_operand_overflows(call):
+    """F24 input predicate: a statement-level relational expression compares something with a
+    sub-expression made only of fields that are not random in the call (and literals), and the
+    unbounded-integer value of that sub-expression differs from its value at the context width."""
+    for sp, e in top_level_rels(call):
+        ctx = call.ctx({}, sp)
+        try:
+            lw, ls, _ = R.etype(e[2], ctx)
+            rw, rs, _ = R.etype(e[3], ctx)
+            cw, cs = max(lw, rw), (ls and rs)
+            for X in (e[2], e[3]):
+                lv = list(_leaves(X))
+                if X[0] != "b" or any(is_random_leaf(call, sp, l) for l in lv):
+                    continue
+                u = _unbounded(X, ctx)
+                w = R.ev(X, ctx, cw, cs)
+                w = R.wrap(w, cw, True) if cs else w
+                if u != w:
+                    return True
+        except R.Corner:
+            continue
+    return False
+
+
+def mixed_sign_relational(call):
+    """F17 input predicate: a statement-level relational expression has a signed and an unsigned
+    operand and at least one random field"""
+    for sp, e in top_level_rels(call):
+        ctx = call.ctx({}, sp)
+        try:
+            _, ls, _ = R.etype(e[2], ctx)
+            _, rs, _ = R.etype(e[3], ctx)
+        except R.Corner:
+            continue
+        if ls != rs and any(is_random_leaf(call, sp, l) for l in list(_leaves(e[2])) + list(_leaves(e[3])) if l[0] == "f"):
+            return True
+    return False
+
+
+def empty_collection_in(call):
+    """F20 input predicate: an active in-constraint names a list or mutable rangelist that is empty at call time"""
+    def walk(sp, e):
+        if e[0] in ("in", "nin"):
+            for it in e[2]:
+                if it[0] in ("lst", "rl"):
+                    cur = R.get_at(call.root, tuple(sp) + tuple(it[1] if it[0] == "lst" else [it[1]]))
+                    if len(cur) == 0:
+                        return True
+        if e[0] == "b":
+            return walk(sp, e[2]) or walk(sp, e[3])
+        if e[0] == "n":
+            return walk(sp, e[1])
+        return False
+
+    def walk_s(sp, s):
+        if s[0] == "e":
+            return walk(sp, s[1])
+        if s[0] == "if":
+            return any(walk(sp, c) or any(walk_s(sp, x) for x in b) for c, b in s[1]) or any(walk_s(sp, x) for x in (s[2] or []))
+        if s[0] == "imp":
+            return walk(sp, s[1]) or any(walk_s(sp, x) for x in s[2])
+        return False
+    return any(walk_s(sp, s) for sp, s, org in call.stmts)
+
+
+def _class_contains(prog, holder, target):
+    if holder == target:
+        return True
+    for c in R.class_chain(prog, holder):
+        for fd in prog["classes"][c]["fields"]:
+            if fd["k"] == "obj" or (fd["k"] == "list" and fd.get("ek") == "obj"):
+                if _class_contains(prog, fd["c"], target):
+                    return True
+    return False
+
+
+def _dyn_refs(stmts):
+    out = []
+
+    def we(e):
+        if not isinstance(e, list) or not e:
+            return
+        if e[0] == "dyn":
+            out.append(e)
+        for x in e[1:]:
+            if isinstance(x, list):
+                we(x)
+    for s in stmts:
+        we(s)
+    return out
+
+
+def dynref_with_later_instance(spec, ev):
+    """F10 input predicate: the call references a dynamic constraint through an attribute path (not through a
+    list index) and an object of the dynamic block's class was constructed after the referenced object."""
+    call = ev.get("call")
+    if call is None:
+        return False
+    hist = spec.get("hist", [])
+    pos = None
+    for i, op in enumerate(hist):
+        if op is ev["op"]:
+            pos = i
+    if pos is None:
+        return False
+    inst = ev["op"].get("o", "o0")
+    created = -1
+    for i, op in enumerate(hist[:pos]):
+        if op.get("op") == "new" and op.get("name") == inst:
+            created = i
+    prog = spec["prog"]
+    refs = []
+    for sp, s, org in call.stmts:
+        for d in _dyn_refs([s]):
+            if any(isinstance(x, int) for x in d[1]):
+                continue
+            try:
+                tgt = R.get_at(call.root, tuple(sp) + tuple(d[1])) if (tuple(sp) + tuple(d[1])) else call.root
+                refs.append(tgt["cls"])
+            except Exception:
+                continue
+    if not refs:
+        return False
+    for i, op in enumerate(hist[:pos]):
+        if i > created and op.get("op") == "new":
+            cn = op.get("cls") or prog["top"]
+            if any(_class_contains(prog, cn, rc) for rc in refs):
+                return True
+    return False
 
 
 def _all(viol, pred):
-    return bool(viol) and all(pred(k, m) for k, m in viol)
+    return bool(viol) and all(pred(v[0], v[1], v[2] if len(v) > 2 else None) for v in viol)
+
+
+def _call(ev):
+    return ev.get("call") if ev else None
 
 
 def classify(prop, spec, viol, evs=None):
-    """viol: list of (kind, message).  Returns a finding key or None."""
-    if prop == "C02":
-        # F23: unsat call, IndexError out of the bound propagators
-        def f23(k, m):
-            return (k == "other-exception" and "raised IndexError" in m and "[unsatisfiable]" in m
-                    and re.search(r"variable_bound_\w*propagator\.py", m) is not None)
-        if _all(viol, f23):
-            return "bounds-empty-domain-indexerror"
+    """viol: list of (kind, message, event).  Returns a finding key or None.  The caller only honours
+    the key when known_findings.json lists it for this property."""
+    # F23: IndexError out of the bound propagators on an emptied domain: the call is unsatisfiable, or the
+    # domain was emptied by one of the unsound range rules (F17 mixed-sign compare / F24 unbounded integers)
+    def f23(k, m, ev):
+        c = _call(ev)
+        if not (k == "other-exception" and "raised IndexError" in m
+                and re.search(r"variable_bound_\w*propagator\.py", m) is not None):
+            return False
+        return "[unsatisfiable]" in m or (c is not None and (mixed_sign_relational(c) or nonrandom_operand_overflows(c)))
+
+    # F24: non-random operand evaluated with unbounded integers by the range inference -> swizzler slices
+    # outside the field
+    def f24(k, m, ev):
+        c = _call(ev)
+        return (k == "other-exception" and "boolector_slice" in m and "must not be >= width" in m
+                and c is not None and (nonrandom_operand_overflows(c) or mixed_sign_relational(c)))
+
+    def f20(k, m, ev):
+        c = _call(ev)
+        return (k in ("unsat-returned-normally", "formula-mismatch", "value-violates-constraint")
+                and c is not None and empty_collection_in(c))
+
+    def f10(k, m, ev):
+        return ev is not None and dynref_with_later_instance(spec, ev)
+
+    if _all(viol, f23):
+        return "bounds-empty-domain-indexerror"
+    if _all(viol, f24):
+        return "bounds-unbounded-int-slice-exception"
+    if prop == "C06" and _all(viol, f10):
+        return "dynamic-ref-binds-last-constructed-instance"
+    if _all(viol, f20):
+        return "in-empty-collection-lowered-to-true"
     return None
